@@ -5,6 +5,7 @@
 import Rtp.Proofs.H265Fields
 import Rtp.Proofs.H265Parse
 import Rtp.Proofs.H265Rt
+import Rtp.Proofs.H265Trunc
 namespace Rtp.Props.C14
 open Rtp Rtp.Model.H265 Rtp.Pred Rtp.Spec.Rfc7798
 
@@ -74,6 +75,47 @@ example : encode (.ap ⟨false, 48, 0, 1⟩ (some 7) [0x40, 1, 9] [(some 0, [0x4
 example : (Packet.paci ⟨false, 50, 0, 1⟩ false 19 3 true false false false [0xAA, 0xBB, 0x80] [1, 2]).WF false = true ∧
     (Packet.paci ⟨false, 50, 0, 1⟩ false 19 3 true false false false [0xAA, 0xBB, 0x80] [1, 2]).tsci =
       some ⟨0xAA, 0xBB, true, false, 0⟩ := by decide
+
+/-! ## c14_truncated — truncated payloads are rejected -/
+
+/-- Every proper prefix (`n` octets, `n` < length) of every well-formed payload structure:
+    if the cut falls inside a mandatory field — payload header, DONL, FU header, PACI fields, PHES,
+    the first two aggregation units, or leaves no payload octet (`n < mandatory`) — `Unmarshal`
+    returns an error; otherwise exactly the shorter packet comes out (`cutPacket`): the same fields
+    with the payload cut, and for an aggregation packet cut after its second unit the units that
+    are complete — trailing octets that do not form a further unit are ignored. -/
+theorem c14_truncated (mode : Bool) (desc : Packet) (n : Nat) (hwf : desc.WF mode = true)
+    (hn : n < (encode desc).length) :
+    C14.decOk mode desc (some n) ((encode desc).take n) (decObs mode ((encode desc).take n)) = true :=
+  trunc_all mode desc n hwf hn
+
+/-- the rejecting half, spelled out -/
+theorem c14_truncated_rejects (mode : Bool) (desc : Packet) (n : Nat) (hwf : desc.WF mode = true)
+    (hn : n < C14.mandatory mode desc) (hn' : n < (encode desc).length) :
+    (decode mode (some ((encode desc).take n))).isErr = true := by
+  have := c14_truncated mode desc n hwf hn'
+  simpa [C14.decOk, hn, decObs] using this
+
+/-- what the code does with octets after a complete aggregation packet: they are ignored as long
+    as they do not form a further unit (stated for any tail on which the unit loop stops at once) -/
+theorem c14_ap_trailing (mode : Bool) (h : Hdr) (d : Option UInt16) (first : Bytes)
+    (rest : List (Option UInt8 × Bytes)) (t : Bytes) (hwf : (Packet.ap h d first rest).WF mode = true)
+    (ht : ∀ k, parseAggRest mode k t = []) :
+    decode mode (some (encode (.ap h d first rest) ++ t)) =
+      .ok { pkt := .ap h d first rest, tsci := none, sizesOk := true } := by
+  simp only [Packet.WF, Bool.and_eq_true, Bool.not_eq_true', beq_iff_eq, decide_eq_true_eq,
+    List.isEmpty_eq_false_iff, List.all_eq_true] at hwf
+  obtain ⟨⟨⟨⟨⟨⟨hw, hf⟩, h48⟩, hd⟩, hfl⟩, hne⟩, hr⟩ := hwf
+  exact decode_ap_trailing mode h d first rest t hw hf h48 hd hfl hne hr ht
+
+/-- non-vacuity: an FU with DONL cut after four of its five header octets is rejected; an
+    aggregation packet cut inside its third unit decodes to its first two -/
+example : C14.mandatory true (.fu ⟨false, 49, 0, 1⟩ true false 19 (some 5) [1, 2]) = 6 ∧
+    (decode true (some ((encode (.fu ⟨false, 49, 0, 1⟩ true false 19 (some 5) [1, 2])).take 5))).isErr = true := by
+  decide
+example : decode false (some ((encode (.ap ⟨false, 48, 0, 1⟩ none [0x40, 1] [(none, [0x42, 1]), (none, [0x44, 1, 7])])).take 13)) =
+    .ok { pkt := .ap ⟨false, 48, 0, 1⟩ none [0x40, 1] [(none, [0x42, 1])], tsci := none, sizesOk := true } := by
+  decide
 
 /-! ## c14_roundtrip / c14_shape — payloader → H265Packet → reassembly per RFC 7798 -/
 
